@@ -4,7 +4,7 @@ patch=$1; shift
 cd /verif || exit 2
 git -C /repo apply "$patch" || { echo "APPLY FAILED"; exit 2; }
 for p in "$@"; do
-  sa/run "$p" > /tmp/try_$p.out 2>&1; rc=$?
+  VERIF_EVIDENCE_DIR=/tmp/try_ev sa/run "$p" > /tmp/try_$p.out 2>&1; rc=$?
   echo "$p exit=$rc"; grep -E "^VIOLATION|^    rule|ANALYSIS-ERROR" /tmp/try_$p.out | head -40
 done
 git -C /repo checkout -- .
